@@ -26,13 +26,11 @@ Open Scope Z_scope.
    Hypothesis of the statement itself: every request is validated against the queue set produced
    by the previously admitted ones (serialised admission, lister up to date) — see
    C10_concurrent_*_refuted below.
-   [safe_history]: whenever the history removes the finalizer of a terminating queue (EnvGone), that
-   queue has no children at that moment.  Without it the statement is FALSE on the current code — the
-   webhook admits a CREATE / re-parenting under a terminating queue (C10_terminating_parent_dangling_refuted,
-   known finding C10-child-under-terminating-parent); a history without finalizer removals is always safe
-   (C10_no_finalizer_removal_is_safe). --- *)
+   TermInv (fifth conjunct of TreeInv): a terminating queue (DELETE admitted, finalizer pending) has no
+   children — a DELETE is admitted only for a queue without children and (fourth fix) a terminating
+   queue is refused as a new parent — so the removal of its finalizer, whenever it comes, keeps the tree. --- *)
 Theorem C10_admitted_history_preserves_tree : forall c rs Q0,
-  1 <= max_depth c -> safe_history c Q0 rs -> TreeInv c Q0 -> TreeInv c (run_history c Q0 rs).
+  1 <= max_depth c -> TreeInv c Q0 -> TreeInv c (run_history c Q0 rs).
 Proof. exact tree_history. Qed.
 Print Assumptions C10_admitted_history_preserves_tree.
 
@@ -43,20 +41,18 @@ Theorem C10_status_update_keeps_tree : forall c Q n a st,
 Proof. exact tree_status_update. Qed.
 Print Assumptions C10_status_update_keeps_tree.
 
-Theorem C10_no_finalizer_removal_is_safe : forall c rs, Forall no_gone rs -> forall Q, safe_history c Q rs.
-Proof. exact no_gone_safe. Qed.
-Print Assumptions C10_no_finalizer_removal_is_safe.
-
+(* the record of the fourth defect: the validation as it was before the fix admits a CREATE under a
+   terminating queue; once the finalizer is removed the set is not a tree and the capacity plugin refuses it *)
 Theorem C10_terminating_parent_dangling_refuted :
-  exists c Q rs, TreeInv c Q /\ 1 <= max_depth c /\
-    verdicts c Q rs = [VAllowed; VAllowed; VAllowed] /\
-    ~ safe_history c Q rs /\ ~ ShapeInv c (run_history c Q rs) /\ capacity_ready (run_history c Q rs) = false.
+  exists c Q n s p ps, TreeInv c Q /\ 1 <= max_depth c /\ Q !! p = Some ps /\ qterm ps = true /\
+    qparent s = Some p /\ validate_hier_preterm c Q n s = VAllowed /\
+    ~ ShapeInv c (delete p (<[n := s]> Q)) /\ capacity_ready (delete p (<[n := s]> Q)) = false.
 Proof. exact terminating_parent_dangling_refuted. Qed.
 Print Assumptions C10_terminating_parent_dangling_refuted.
 
 (* the shape part alone *)
 Theorem C10_shape_history : forall c rs Q0,
-  1 <= max_depth c -> safe_history c Q0 rs -> ShapeInv c Q0 -> ShapeInv c (run_history c Q0 rs).
+  1 <= max_depth c -> TermInv Q0 -> ShapeInv c Q0 -> ShapeInv c (run_history c Q0 rs).
 Proof. exact shape_history. Qed.
 Print Assumptions C10_shape_history.
 
@@ -91,7 +87,7 @@ Print Assumptions C10_queue_order.
 (* --- capability against the nearest ancestor that sets the dimension: preserved by every
    admitted request, re-parenting of whole subtrees included (second fix) --- *)
 Theorem C10_capability_step : forall c Q r,
-  1 <= max_depth c -> req_safe Q r -> ShapeInv c Q -> CapInv Q -> CapInv (apply_if_admitted c Q r).
+  1 <= max_depth c -> TermInv Q -> ShapeInv c Q -> CapInv Q -> CapInv (apply_if_admitted c Q r).
 Proof. exact cap_step. Qed.
 Print Assumptions C10_capability_step.
 
